@@ -4,6 +4,7 @@ core/mathx/proba.go *now* equals what the model was written against.
 -/
 import GoZero.Extracted.C01
 import GoZero.C01.Model
+import GoZero.C01.Sites
 namespace GoZero.C01.Tie
 open GoZero.C01
 open GoZero.Extracted.C01
@@ -202,5 +203,94 @@ theorem tie_newRollingWindow : newRollingWindowStmts =
     ["if size < 1",
      "w := &RollingWindow[T, B]{ size: size, win: newWindow[T, B](newBucket, size), interval: interval, lastTime: timex.Now(), }",
      "return w"] := by decide
+
+/-! ### call sites -/
+
+/-- rest: `Allow`; rejected → drop metric, `WriteHeader`, return without calling `next`; admitted → the deferred
+function resolves the promise exactly once, Accept iff `cw.Code < http.StatusInternalServerError`, and `next` runs
+after the defer is installed (so the promise is resolved on a panic as well). `Site.pred .rest`, `siteEvents .rest`. -/
+theorem tie_restBreakerHandler : restBreakerHandlerShape =
+    ["call breaker.WithName", "call breaker.NewBreaker", "func{", "func{", "call brk.Allow", "if err != nil {",
+     "call metrics.AddDrop", "call r.Context", "call httpx.GetRemoteAddr", "call r.UserAgent", "call logc.Errorf",
+     "call w.WriteHeader", "return", "}",
+     "call response.NewWithCodeResponseWriter",
+     "defer{", "func{", "if cw.Code < http.StatusInternalServerError {", "call promise.Accept", "}",
+     "else{", "call http.StatusText", "call promise.Reject", "}", "}", "call func", "}",
+     "call next.ServeHTTP", "}", "call http.HandlerFunc", "return", "}", "return"] := rfl
+
+/-- zrpc/internal/codes/accept.go: the six unacceptable codes (`codeAcceptable`; their numbers 4, 13, 14, 15, 12, 8
+are exercised one by one through the real function by the harness). -/
+theorem tie_codesAcceptable : codesAcceptableSwitch =
+    ["switch status.Code(err)",
+     "case codes.DeadlineExceeded, codes.Internal, codes.Unavailable, codes.DataLoss, codes.Unimplemented, codes.ResourceExhausted: return false",
+     "default: return true"] := rfl
+
+/-- zrpc client: one breaker per `target/method`, `DoWithAcceptableCtx` with `codes.Acceptable`, the invoker's error is
+handed back as is. -/
+theorem tie_zrpcClient : zrpcClientStmts =
+    ["breakerName := path.Join(cc.Target(), method)",
+     "return breaker.DoWithAcceptableCtx(ctx, breakerName, func() error { return invoker(ctx, method, req, reply, cc, opts...) }, codes.Acceptable)",
+     "return invoker(ctx, method, req, reply, cc, opts...)"] := rfl
+
+/-- zrpc server: breaker per `info.FullMethod`; unary uses the Ctx variant, stream the plain one; both hand
+`serverSideAcceptable` over and pass the result through `convertError`. -/
+theorem tie_zrpcServer :
+    zrpcServerUnaryStmts =
+      ["breakerName := info.FullMethod",
+       "err = breaker.DoWithAcceptableCtx(ctx, breakerName, func() error { var err error resp, err = handler(ctx, req) return err }, serverSideAcceptable)",
+       "resp, err = handler(ctx, req)", "return err", "return resp, convertError(err)"]
+    ∧ zrpcServerStreamStmts =
+      ["breakerName := info.FullMethod",
+       "err := breaker.DoWithAcceptable(breakerName, func() error { return handler(svr, stream) }, serverSideAcceptable)",
+       "return handler(svr, stream)", "return convertError(err)"]
+    ∧ serverSideAcceptableStmts =
+      ["if errorx.In(err, context.DeadlineExceeded, breaker.ErrServiceUnavailable)", "return false", "return codes.Acceptable(err)"]
+    ∧ convertErrorStmts =
+      ["if err == nil", "return nil", "if errors.Is(err, breaker.ErrServiceUnavailable)",
+       "return status.Error(gcodes.Unavailable, err.Error())", "return err"] := ⟨rfl, rfl, rfl, rfl⟩
+
+/-- redis: `blpop` goes around the breaker, everything else (and every pipeline) through `DoWithAcceptableCtx` with
+`acceptable` = nil | redis.Nil | context.Canceled. -/
+theorem tie_redisHook :
+    redisProcessHookShape = ["func{", "call cmd.Name", "if ok {", "call next", "return", "}", "func{", "call next", "return", "}",
+                             "call h.brk.DoWithAcceptableCtx", "return", "}", "return"]
+    ∧ redisPipelineHookShape = ["func{", "func{", "call next", "return", "}", "call h.brk.DoWithAcceptableCtx", "return", "}", "return"]
+    ∧ redisProcessHookBreaker = ["h.brk.DoWithAcceptableCtx(…, acceptable)"]
+    ∧ redisPipelineHookBreaker = ["h.brk.DoWithAcceptableCtx(…, acceptable)"]
+    ∧ redisIgnoreCmds = ["\"blpop\""]
+    ∧ redisAcceptableStmts = ["return err == nil || errorx.In(err, red.Nil, context.Canceled)"] := ⟨rfl, rfl, rfl, rfl, rfl, rfl⟩
+
+/-- sqlx: `db.acceptable` (`sqlAcceptable`) and which predicate each wrapped operation hands to the breaker
+(`queryRows`: `scanFailed || db.acceptable(err)`, with `isScanFailed` = non-nil and not DeadlineExceeded). -/
+theorem tie_sqlx :
+    sqlxAcceptableStmts =
+      ["if err == nil || errorx.In(err, sql.ErrNoRows, sql.ErrTxDone, context.Canceled)", "return true",
+       "if errors.As(err, &e)", "return true", "if db.accept == nil", "return false", "return db.accept(err)"]
+    ∧ sqlxExecCtxBreaker = ["db.brk.DoWithAcceptableCtx(…, db.acceptable)"]
+    ∧ sqlxPrepareCtxBreaker = ["db.brk.DoWithAcceptableCtx(…, db.acceptable)"]
+    ∧ sqlxTransactCtxBreaker = ["db.brk.DoWithAcceptableCtx(…, db.acceptable)"]
+    ∧ sqlxQueryRowsBreaker = ["db.brk.DoWithAcceptableCtx(…, func(err error) bool { return scanFailed || db.acceptable(err) })"]
+    ∧ sqlxIsScanFailedStmts = ["return err != nil && !errors.Is(err, context.DeadlineExceeded)"] := ⟨rfl, rfl, rfl, rfl, rfl, rfl⟩
+
+/-- breakers.go: `GetBreaker` looks the name up, creates `NewBreaker(WithName(name))` only when absent and stores it
+under that very name (`Registry.get`); every package-level `Do*` forwards to the method of the same name of
+`GetBreaker(name)` with its arguments unchanged (`Registry.with`). -/
+theorem tie_breakers :
+    getBreakerStmts = ["b, ok := breakers[name]", "if ok", "return b", "b, ok = breakers[name]", "if !ok",
+                       "b = NewBreaker(WithName(name))", "breakers[name] = b", "return b"]
+    ∧ getBreakerShape = ["call lock.RLock", "call lock.RUnlock", "if ok {", "return", "}", "call lock.Lock", "if !ok {",
+                         "call WithName", "call NewBreaker", "mapset breakers", "}", "call lock.Unlock", "return"]
+    ∧ breakersLookupStmts = ["return execute(GetBreaker(name))"]
+    ∧ breakersDoStmts.getLast? = some "return b.Do(req)"
+    ∧ breakersDoCtxStmts.getLast? = some "return b.DoCtx(ctx, req)"
+    ∧ breakersDoWithAcceptableStmts.getLast? = some "return b.DoWithAcceptable(req, acceptable)"
+    ∧ breakersDoWithAcceptableCtxStmts.getLast? = some "return b.DoWithAcceptableCtx(ctx, req, acceptable)"
+    ∧ breakersDoWithFallbackStmts.getLast? = some "return b.DoWithFallback(req, fallback)"
+    ∧ breakersDoWithFallbackCtxStmts.getLast? = some "return b.DoWithFallbackCtx(ctx, req, fallback)"
+    ∧ breakersDoWithFallbackAcceptableStmts.getLast? = some "return b.DoWithFallbackAcceptable(req, fallback, acceptable)"
+    ∧ breakersDoWithFallbackAcceptableCtxStmts.getLast? = some "return b.DoWithFallbackAcceptableCtx(ctx, req, fallback, acceptable)"
+    ∧ (breakersDoStmts ++ breakersDoCtxStmts ++ breakersDoWithAcceptableStmts ++ breakersDoWithAcceptableCtxStmts
+        ++ breakersDoWithFallbackStmts ++ breakersDoWithFallbackCtxStmts ++ breakersDoWithFallbackAcceptableStmts
+        ++ breakersDoWithFallbackAcceptableCtxStmts).length = 16 := ⟨rfl, rfl, rfl, rfl, rfl, rfl, rfl, rfl, rfl, rfl, rfl, rfl⟩
 
 end GoZero.C01.Tie
